@@ -326,6 +326,15 @@ class State(object):
         if a == b:
             return False
         if is_const(b) and not is_const(a):
+            if a[0] in ('add', 'sub', 'mul', 'neg'):
+                # c*x + k != v  <=>  x != (v - k)/c  (vacuous when c does not divide): lets interval ends move
+                l = lin_of(a)
+                if len(l.co) == 1:
+                    (x, c), = l.co.items()
+                    if x[0] not in ('add', 'sub', 'mul', 'neg') and c != 0:
+                        if (b[1] - l.k) % c != 0:
+                            return True
+                        return self.add_neq(x, C((b[1] - l.k) // c))
             d = self.dom(a).without(b[1])
             if d.empty():
                 return False
